@@ -225,9 +225,15 @@ Definition copy_row (r : row) (g : given) (dcls : Z) (h : heap) (o : loc) : opti
                         | None => CFree
                         | Some b => match b_list b, bl with Shared, Some _ => CFree | _, _ => CList new_bonds end
                         end in
+      (* the real constructors look every bond end up in a map keyed by the source's atoms: KeyError otherwise *)
+      let ends_found := forallb (fun b => match get h b with
+                                          | CBond a1 a2 _ _ _ =>
+                                              match index_of a1 atoms, index_of a2 atoms with Some _, Some _ => true | _, _ => false end
+                                          | _ => true end) bonds in
       let root := CMol dcls (if r_scal r then sc else g_scal g) alist_loc blist_loc
                        (arr_loc (r_coords r) co (base + 3)) (arr_loc (r_charges r) ch (base + 4))
                        (arr_loc (r_weights r) we (base + 5)) (dict_loc (r_attrib r) at_ (base + 6)) in
+      if match b_ends br with ERemap => negb ends_found | _ => false end then None else
       Some (h ++ [root; alist_cell; blist_cell;
                   arr_cell h (r_coords r) co (g_coords g); arr_cell h (r_charges r) ch (g_charges g);
                   arr_cell h (r_weights r) we (g_weights g); dict_cell h (r_attrib r) at_]
@@ -310,13 +316,13 @@ Definition dst_of (k : kls) (r : route) : kls :=
 
 (* The specification, written from the property text: a copy reproduces every field both classes
    have; a derived molecule (concatenate / join / ensemble-from-list) reproduces its sources' atoms and
-   bonds -- and, for concatenate, coordinates and partial charges; a join computes new
+   bonds and partial charges -- and, for concatenate, coordinates; a join computes new
    coordinates; name / charge / multiplicity / attributes of a derived molecule are its own. *)
 Definition need_of (k : kls) (r : route) : need :=
   let d := dst_of k r in
   match r with
   | RConcat _ _ => mk_need true true (has_charges k && has_charges d) false false false
-  | RJoin _ => mk_need true false false false false false
+  | RJoin _ => mk_need true false (has_charges k && has_charges d) false false false
   | REnsFromList => mk_need true false false false true true
   | REvolve => mk_need false false false false false false
   | _ =>
@@ -344,7 +350,46 @@ Definition lookup_row (t : list entry) (k : kls) (r : route) : option row :=
   | None => None
   end.
 
-Definition entry_ok (e : entry) : bool := match e with (k, r, x) => row_ok (need_of k r) x end.
+(* Atom / Bond objects copied on their own: the object and its attrib dict are fresh and equal; a
+   lone copy has no owner (or, for evolve, still names the source's owner); a pickled / deep-copied
+   bond brings copies of its end atoms, an evolved bond keeps the same end atoms (a bond does not
+   own its atoms). *)
+Definition lone (k : kls) : bool := match k with KAtom | KBond => true | _ => false end.
+Definition lone_ok (k : kls) (r : route) (x : row) : bool :=
+  match k with
+  | KAtom => st_copied (r_atom x) && st_copied (r_aattrib x)
+             && match r_aparent x with RNone | RKeep => true | _ => false end
+  | KBond => match r_bonds x with
+             | Some b => st_copied (b_obj b) && st_copied (b_attrib b)
+                         && match b_parent b with RNone | RKeep => true | _ => false end
+                         && match b_ends b, r with
+                            | ERemap, _ => true
+                            | EKeep, REvolve => true
+                            | _, _ => false
+                            end
+             | None => false
+             end
+  | _ => false
+  end.
+
+(* known findings are excluded BY NAME: (class, route, field) -- see Props/C06.v *)
+Inductive fld := FBonds | FCoords | FCharges | FWeights | FScal | FAttrib.
+Definition mask (nd : need) (f : fld) : need :=
+  match f with
+  | FBonds => mk_need false (n_coords nd) (n_charges nd) (n_weights nd) (n_scal nd) (n_attrib nd)
+  | FCoords => mk_need (n_bonds nd) false (n_charges nd) (n_weights nd) (n_scal nd) (n_attrib nd)
+  | FCharges => mk_need (n_bonds nd) (n_coords nd) false (n_weights nd) (n_scal nd) (n_attrib nd)
+  | FWeights => mk_need (n_bonds nd) (n_coords nd) (n_charges nd) false (n_scal nd) (n_attrib nd)
+  | FScal => mk_need (n_bonds nd) (n_coords nd) (n_charges nd) (n_weights nd) false (n_attrib nd)
+  | FAttrib => mk_need (n_bonds nd) (n_coords nd) (n_charges nd) (n_weights nd) (n_scal nd) false
+  end.
+Definition known_t := list (kls * route * fld).
+Definition need_known (known : known_t) (k : kls) (r : route) : need :=
+  fold_left (fun nd e => match e with (k', r', f) => if kls_eqb k k' && route_eqb r r' then mask nd f else nd end)
+            known (need_of k r).
+
+Definition entry_ok (known : known_t) (e : entry) : bool :=
+  match e with (k, r, x) => if lone k then lone_ok k r x else row_ok (need_known known k r) x end.
 
 (* the routes every table must contain: same-class copies of the six constructible classes,
    pickle and deepcopy of all seven, evolve of atoms and bonds, the derived-molecule routes *)
@@ -363,13 +408,8 @@ Definition required : list (kls * route) :=
 Definition table_complete (t : list entry) : bool :=
   forallb (fun kr => match lookup_row t (fst kr) (snd kr) with Some _ => true | None => false end) required.
 
-(* known findings are excluded BY NAME (class, route); see Props/C06.v *)
-Definition excluded (known : list (kls * route)) (k : kls) (r : route) : bool :=
-  existsb (fun kr => kls_eqb k (fst kr) && route_eqb r (snd kr)) known.
-
-Definition table_ok (known : list (kls * route)) (t : list entry) : bool :=
-  table_complete t &&
-  forallb (fun e => match e with (k, r, _) => excluded known k r || entry_ok e end) t.
+Definition table_ok (known : known_t) (t : list entry) : bool :=
+  table_complete t && forallb (entry_ok known) t.
 
 (* ------------------------------------------------------------------ mutations *)
 Inductive prim := PWrite (l : loc) (c : cell) | PAlloc (c : cell).
